@@ -47,7 +47,7 @@ PROPS["C07"] = dict(
 )
 
 PROPS["C10"] = dict(
-    suites=[udp_suite("udp-swarm-expiry", 0b01011, monitor="mon_c01", count_quick=320),
+    suites=[udp_suite("udp-swarm-expiry", 0b01011, monitor="mon_c10", count_quick=320),
             http_suite("http-swarm-expiry", 0b01011, monitor="mon_c07", count_quick=320),
             dict(name="valid-until", harness="valid-until", imports=["Expiry"], case_type="N * N * bool * list (N * bool)",
                  check="vu_code", monitor=None, count_quick=400, count_thorough=20000, nontrivial_bits=3, shrink=False)],
@@ -108,6 +108,23 @@ PROPS["C05"] = dict(
                  "clock refresh cadence (every 256 polls) are runtime"],
 )
 
+PROPS["C13"] = dict(
+    suites=[dict(name="udp-codec", harness="udp-codec", imports=["UdpCodecGen", "UdpCodecFacts"], case_type="bool * list codec_case",
+                 check="udp_codec_code", monitor="udp_codec_bep15_code", count_quick=400, count_thorough=20000, nontrivial_bits=3, shrink=False),
+            dict(name="udp-codec-bep15", harness="udp-codec", imports=["UdpCodecGen", "UdpCodecFacts"], case_type="bool * list codec_case",
+                 check="udp_codec_bep15_code", monitor="udp_codec_bep15_code", count_quick=200, count_thorough=5000, nontrivial_bits=3, shrink=False,
+                 extra={})],
+    rule="real Request/Response write_bytes and parse_bytes on datagrams built from boundary and random field values of every message kind "
+         "(connect, announce with all four events, scrape with 0..255 hashes against max_scrape_torrents in {0,1,2,70,255}, connect/announce "
+         "v4/v6/scrape/error replies with 0..4 entries), 40% unmodified and 60% truncated at a random offset / extended / bit-flipped / action "
+         "or event field overwritten / random bytes / port 0; compared: parse result field by field, error class, and the re-written bytes; "
+         "suite 1 judges against the layouts regenerated from the source, suite 2 against the BEP 15 tables directly; non-trivial = a case "
+         "holding both accepted and rejected datagrams",
+    modelled="request.rs / response.rs parse_bytes and write_bytes (UdpCodec.v) over layouts regenerated from the #[repr(C, packed)] structs; "
+             "zerocopy's prefix/exact-size/slice reads and enum validity as modelled in Lib/Layout.v",
+    assumptions=["lossy UTF-8 decoding of error texts is compared on valid UTF-8 only"],
+)
+
 LEVELS = {
     "C01": dict(
         text="Refinement theorem (Coq, induction over all finite histories, all offsets, any inline capacity): the sequential model of "
@@ -162,6 +179,14 @@ LEVELS["C05"] = dict(
          "under a controlled clock with the hash observed as a table.",
     design_ref="DESIGN.md §7 C05", technique="Coq iff-characterisation for all MAC functions + in-Coq correspondence with observed MAC table",
     note="Trusted: Coq kernel, model, harness, hook H2. Cryptographic strength of BLAKE3 is assumed, not proved.")
+
+LEVELS["C13"] = dict(
+    text="Theorems for all field values: the layouts regenerated from the source equal the BEP 15 tables (re-decided every run); encode-decode "
+         "identity for every layout; round trips of connect / announce (all events, with extension bytes) / scrape (cut to max) / all four "
+         "reply kinds for both families; every listed rejection with its error class. Tied to the code by the translator and by comparing "
+         "the real parser/writer with the model on generated and mutated datagrams, once against the generated and once against the BEP 15 layouts.",
+    design_ref="DESIGN.md §7 C13", technique="Coq codec proofs over source-generated layouts + translator + in-Coq differential check",
+    note="Trusted: Coq kernel, translator (layouts), model of zerocopy reads, harness.")
 
 NOT_APPLICABLE = [
     dict(property_id=p, reason="check not built yet in this round (work in progress; planned per DESIGN.md §10)")
